@@ -95,12 +95,19 @@ func main() {
 						}()
 						t.Line("crash", true, "crash %d %d => %s", bi+1, k, msdrive.RenderEvents(events[bi][:k]))
 						cp := faultdb.Wrap(msdrive.CopyMemDB(disk[bi][k]))
+						// writes performed while loading (LoadVersion(0) discards an uncommitted first version) are recorded too
+						cp.Start()
 						ms2, err := msdrive.Open(cp, spec, int64(1+r.Intn(30)))
+						levs := cp.Stop()
 						if err != nil {
 							t.Line("reopen", true, "reopen latest => ERR %s", msdrive.ErrStr(err))
 							return
 						}
-						t.Line("reopen", true, "reopen latest => %s", msdrive.CID(ms2.Store.LastCommitID()))
+						if len(levs) > 0 {
+							t.Line("reopen", true, "reopen latest => %s %s", msdrive.CID(ms2.Store.LastCommitID()), msdrive.RenderEvents(levs))
+						} else {
+							t.Line("reopen", true, "reopen latest => %s", msdrive.CID(ms2.Store.LastCommitID()))
+						}
 						msdrive.StoreStates(t, "rstate", "latest", ms2, nil)
 						next := bi
 						if k == m {
